@@ -765,8 +765,8 @@ def close_partials(trees: Dict[str, ast.Module], known: Optional[set] = None) ->
 # ---------------------------------------------------------------------------
 def propagate_record_fields(trees: Dict[str, ast.Module]) -> int:
     """a local bound once to the construction of a plain record class of the package (a NamedTuple or dataclass: nothing but
-    annotated fields, no __init__ / __post_init__ / properties), whose field values are names, constants, attribute chains or
-    subscripts of those, and which is afterwards only READ through its fields, stands for those values - as long as nothing in
+    annotated fields, no __init__ / __post_init__ / properties), whose field values are names, constants, attribute chains,
+    subscripts or arithmetic of those, and which is afterwards only READ through its fields, stands for those values - as long as nothing in
     the statements that follow (same block and below) re-assigns a name the values mention, stores into or mutates in place a
     container they read, or calls a method on `self`.  `m.field` is replaced by the field's value.  Returns the number of
     records resolved."""
@@ -800,8 +800,8 @@ def propagate_record_fields(trees: Dict[str, ast.Module]) -> int:
 
     def pure(e):
         for x in ast.walk(e):
-            if isinstance(x, (ast.Name, ast.Constant, ast.Attribute, ast.Subscript, ast.expr_context, ast.keyword)):
-                continue
+            if isinstance(x, (ast.Name, ast.Constant, ast.Attribute, ast.Subscript, ast.expr_context, ast.keyword, ast.BinOp, ast.UnaryOp, ast.operator, ast.unaryop)):
+                continue  # arithmetic on those computes a value and changes nothing
             if isinstance(x, ast.Call):
                 fn_ = x.func
                 nm = fn_.id if isinstance(fn_, ast.Name) else (fn_.attr if isinstance(fn_, ast.Attribute) else None)
